@@ -11,7 +11,7 @@
      good_leaves t  every leaf carries a taxon and no taxon sits on two leaves
    Lengths are integers in units of 2^-10 (None = Python None, counted as 0). *)
 From Coq Require Import ZArith QArith List Bool.
-From DV Require Import Model.PyPrims Model.Tree Model.C14Model Model.C14Spec Proofs.C14Proofs Proofs.C14Means Proofs.C14Clu Proofs.C14Upgma.
+From DV Require Import Model.PyPrims Model.Tree Model.C14Model Model.C14Spec Proofs.C14Proofs Proofs.C14Means Proofs.C14Clu Proofs.C14Upgma Proofs.C14Nj.
 Import ListNotations.
 Open Scope Z_scope.
 
@@ -120,6 +120,8 @@ Print Assumptions pdm_exact_nonvacuous.
 (* ---------------------------------------------------------------------------------------- *)
 (* Tree.mrca(taxa=S, start_node=start, is_bipartitions_updated=updated) on the tree object
    (t, rooted, enc): enc is the leafset bitmask stored on every node's edge (0 = never encoded).
+   `ee` says whether the working tree's loop has the early exit `if cm == leafset_bitmask` (it does at
+   the time of writing; the harness observes it; the theorem holds either way).
 
    The call refreshes the encoding when the start node's stored mask is 0 or updated = False.  A
    refresh is encode_bipartitions(suppress_unifurcations=False), which on a tree NOT flagged rooted
@@ -131,7 +133,7 @@ Print Assumptions pdm_exact_nonvacuous.
    None when the start node's leaves do not include S.  Without a refresh the tree object is
    unchanged. *)
 Theorem tree_mrca_deepest :
-  forall (ns : nspace) (t : tree) (rooted : option bool) (enc : dict Z) (S : list Z)
+  forall (ee : bool) (ns : nspace) (t : tree) (rooted : option bool) (enc : dict Z) (S : list Z)
          (start : option Z) (updated : bool),
   ns_inj ns -> (forall a, In a S -> member ns a) -> S <> [] ->
   let sid := match start with Some i => i | None => t_id t end in
@@ -140,7 +142,7 @@ Theorem tree_mrca_deepest :
   good_leaves t' -> members_ok ns t' -> NoDup (ids t') ->
   (refresh = true \/ current ns enc t) ->
   forall st, find_node sid t' = Some st ->
-  exists mt', tree_mrca ns (mkMt t rooted enc) (ByTaxa S) start updated
+  exists mt', tree_mrca ee ns (mkMt t rooted enc) (ByTaxa S) start updated
               = (Ok (option_map t_id (deepest S st)), mt')
               /\ mt_tree mt' = t' /\ (refresh = false -> mt' = mkMt t rooted enc).
 Proof. exact tree_mrca_deepest_p. Qed.
@@ -157,28 +159,43 @@ Theorem mrca_refresh_keeps_leaves : forall t rooted refresh,
 Proof. exact (fun t rooted refresh => conj (tree_after_leaves t rooted refresh) (tree_after_rooted t refresh)). Qed.
 Print Assumptions mrca_refresh_keeps_leaves.
 
+(* The hypothesis "every leaf carries a taxon" cannot be dropped: beside a leaf WITHOUT a taxon the
+   descent stops as soon as a node's bitmask equals the query (`if cm == leafset_bitmask`: it only
+   steps down unifurcations) although a deeper node has the same leaves.  On
+   (-, (t1, t0)) with a taxon-less first leaf, mrca(taxa=[t0, t1]) returns the root (node 0) while
+   the deepest node whose leaves include both is node 3; without the early exit (ee = false) the
+   loop returns node 3.  (Finding, replayed on the implementation by the harness's fixed probe case;
+   key tree-mrca-beside-taxonless-leaf.) *)
+Theorem tree_mrca_taxonless_leaf_refuted :
+  NoDup (leaf_taxa bad_tree) /\ NoDup (ids bad_tree) /\
+  fst (tree_mrca true bad_ns (mkMt bad_tree (Some true) []) (ByTaxa [0; 1]) None true) = Ok (Some 0) /\
+  fst (tree_mrca false bad_ns (mkMt bad_tree (Some true) []) (ByTaxa [0; 1]) None true) = Ok (Some 3) /\
+  option_map t_id (deepest [0; 1] bad_tree) = Some 3.
+Proof. exact tree_mrca_taxonless_leaf_refuted_p. Qed.
+Print Assumptions tree_mrca_taxonless_leaf_refuted.
+
 (* the other argument forms: taxon_labels= resolves the labels in the namespace (every member with
    one of the labels, no repeats) and raises KeyError unless that gives exactly as many taxa as
    labels; leafset_bitmask= of the OR of the members' bits is the same query *)
-Theorem tree_mrca_forms : forall ns mt start updated,
-  (forall ls, tree_mrca ns mt (ByLabels ls) start updated =
+Theorem tree_mrca_forms : forall ee ns mt start updated,
+  (forall ls, tree_mrca ee ns mt (ByLabels ls) start updated =
               if Nat.eqb (length (get_taxa ns ls)) (length ls)
-              then tree_mrca ns mt (ByTaxa (get_taxa ns ls)) start updated
+              then tree_mrca ee ns mt (ByTaxa (get_taxa ns ls)) start updated
               else (Err KeyErr, mt)) /\
   (forall S, (forall a, In a S -> member ns a) ->
-             tree_mrca ns mt (ByMask (mask_of (bitf ns) S)) start updated
-             = tree_mrca ns mt (ByTaxa S) start updated).
-Proof. exact (fun ns mt start updated => conj (fun ls => Proofs.C14Mrca.tree_mrca_labels ns mt ls start updated)
-                                             (fun S H => Proofs.C14Mrca.tree_mrca_mask ns mt S start updated H)). Qed.
+             tree_mrca ee ns mt (ByMask (mask_of (bitf ns) S)) start updated
+             = tree_mrca ee ns mt (ByTaxa S) start updated).
+Proof. exact (fun ee ns mt start updated => conj (fun ls => Proofs.C14Mrca.tree_mrca_labels ee ns mt ls start updated)
+                                             (fun S H => Proofs.C14Mrca.tree_mrca_mask ee ns mt S start updated H)). Qed.
 Print Assumptions tree_mrca_forms.
 
 (* error branches: empty taxon list / zero mask -> ValueError, no argument -> TypeError, a taxon
    that is not in the namespace -> KeyError; the tree object is untouched *)
-Theorem tree_mrca_errors : forall ns mt start updated,
-  tree_mrca ns mt (ByTaxa []) start updated = (Err ValueErr, mt) /\
-  tree_mrca ns mt (ByMask 0) start updated = (Err ValueErr, mt) /\
-  tree_mrca ns mt NoArg start updated = (Err TypeErr, mt) /\
-  (forall S a, In a S -> ns_bit ns a = None -> tree_mrca ns mt (ByTaxa S) start updated = (Err KeyErr, mt)).
+Theorem tree_mrca_errors : forall ee ns mt start updated,
+  tree_mrca ee ns mt (ByTaxa []) start updated = (Err ValueErr, mt) /\
+  tree_mrca ee ns mt (ByMask 0) start updated = (Err ValueErr, mt) /\
+  tree_mrca ee ns mt NoArg start updated = (Err TypeErr, mt) /\
+  (forall S a, In a S -> ns_bit ns a = None -> tree_mrca ee ns mt (ByTaxa S) start updated = (Err KeyErr, mt)).
 Proof. exact tree_mrca_errors_p. Qed.
 Print Assumptions tree_mrca_errors.
 
@@ -300,3 +317,43 @@ Theorem upgma_recovers_ultrametric_partial : forall M order,
     (exists H, forall a, In a order -> exists q, qdown a T = Some q /\ (q == H)%Q).
 Proof. exact upgma_realizes_ultrametric_l. Qed.
 Print Assumptions upgma_recovers_ultrametric_partial.
+
+(* ---------------------------------------------------------------------------------------- *)
+(* NJ INVERTS ADDITIVE DISTANCES, GIVEN THE Q-CRITERION.  Full statement wanted
+   (nj_recovers_additive): for the distance matrix M of a tree with positive internal edge lengths,
+   nj_tree M returns that unrooted tree with its edge lengths.
+   Proved here: for ANY class P of pools for which (qcrit_cherry) every pair minimising
+   (n-2) d(a,b) - xsub a - xsub b is a cherry of the pool's stored distances and (qcrit_closed) P is
+   kept by nj_step, and which contains the initial pool: nj_tree M returns a tree T in which the path
+   distance between ANY two taxa is exactly the matrix entry -- PDM(NJ(M)) = M entrywise; the edge
+   lengths assigned at every join are the exact pendant lengths (nj_step_sound).
+   Proof: invariant over the iterations (Proofs/C14Nj.v, NI): every pool node's subtree realises
+   the matrix on its leaves, and for leaves a, b in different pool nodes u, v:
+   M a b = depth of a below u + stored d(u,v) + depth of b below v.
+   MISSING (not proved): the Q-criterion lemma itself -- for P := "the stored distances are the path
+   distances of a tree with positive internal edge lengths", qcrit_cherry P (Saitou-Nei 1987,
+   Studier-Keppler 1988) and qcrit_closed P -- and the uniqueness of the tree realising a metric.
+   Recovery of generating trees is therefore checked by the correspondence oracle only. *)
+Theorem nj_recovers_additive_partial : forall M order (P : list jnode -> Prop),
+  NoDup order -> order <> [] -> mcomplete M order -> msymmetric M order ->
+  qcrit_cherry P -> qcrit_closed P -> (forall pool, nj_init M order = Ok pool -> P pool) ->
+  exists T, nj_tree M order = Ok T /\
+    forall a b, In a order -> In b order -> a <> b -> exists q, qdist T a b = Some q /\ (q == mval M a b)%Q.
+Proof. exact nj_realizes_additive_l. Qed.
+Print Assumptions nj_recovers_additive_partial.
+
+(* the hypotheses of nj_recovers_additive_partial are satisfiable: with at most three nodes every
+   pair is a cherry, so the class of pools with at most three nodes satisfies both parts of the
+   Q-criterion; hence, unconditionally, NJ realises every complete symmetric matrix on at most three
+   taxa *)
+Theorem nj_exact_up_to_three_taxa : forall M order,
+  NoDup order -> order <> [] -> (length order <= 3)%nat -> mcomplete M order -> msymmetric M order ->
+  exists T, nj_tree M order = Ok T /\
+    forall a b, In a order -> In b order -> a <> b -> exists q, qdist T a b = Some q /\ (q == mval M a b)%Q.
+Proof. exact nj_exact_small_l. Qed.
+Print Assumptions nj_exact_up_to_three_taxa.
+
+Example qcriterion_nonvacuous :
+  qcrit_cherry (fun pool => (length pool <= 3)%nat) /\ qcrit_closed (fun pool => (length pool <= 3)%nat).
+Proof. exact small_pools_qcrit. Qed.
+Print Assumptions qcriterion_nonvacuous.
